@@ -43,6 +43,7 @@ struct BunWorld {
     delegate: Pubkey,
     rent_id: Pubkey,
     deleted: bool,
+    emptied: bool,
 }
 
 struct XBundle {
@@ -139,7 +140,7 @@ impl BunWorld {
         let mut td = bank.data(&token);
         td[0..32].copy_from_slice(omint.as_ref());
         bank.set(otoken, anchor_spl::token::ID, 2_100_000, td);
-        Ok(BunWorld { bank, pool, ts, bundle, mint, token, other_token: otoken, owner, funder, stranger, delegate, rent_id, deleted: false })
+        Ok(BunWorld { bank, pool, ts, bundle, mint, token, other_token: otoken, owner, funder, stranger, delegate, rent_id, deleted: false, emptied: false })
     }
 
     fn bitmap(&self) -> Option<[u8; 32]> {
@@ -209,6 +210,17 @@ impl BunWorld {
                 }
                 (self.delegate, true)
             }
+            6 => {
+                // the owner signs, but the account of the bundle mint he passes holds NO token (amount 0)
+                let a = self.bank.get(&self.token);
+                if a.owner == anchor_spl::token::ID && a.data.len() == 165 {
+                    let mut d = a.data.clone();
+                    d[64..72].copy_from_slice(&0u64.to_le_bytes());
+                    self.bank.set(self.token, a.owner, a.lamports, d);
+                    self.emptied = true;
+                }
+                (self.owner, true)
+            }
             _ => (self.owner, true),
         }
     }
@@ -224,6 +236,10 @@ impl BunWorld {
         let a = self.bank.get(&self.token);
         if a.owner == anchor_spl::token::ID && a.data.len() == 165 {
             let mut d = a.data.clone();
+            if self.emptied {
+                d[64..72].copy_from_slice(&1u64.to_le_bytes());
+                self.emptied = false;
+            }
             d[72..76].copy_from_slice(&0u32.to_le_bytes());
             d[76..108].copy_from_slice(&[0u8; 32]);
             d[121..129].copy_from_slice(&0u64.to_le_bytes());
@@ -254,7 +270,7 @@ impl Family for XBundle {
         }
         *left -= 1;
         let ts = *self.gen_ts.borrow() as i64;
-        let auth = r.pick(&[0u8, 0, 0, 0, 0, 0, 0, 0, 1, 2, 3, 3, 4]);
+        let auth = r.pick(&[0u8, 0, 0, 0, 0, 0, 0, 0, 1, 2, 3, 3, 4, 6]);
         let pick_index = |r: &mut Rng, want_open: bool| -> u64 {
             match r.below(8) {
                 0 => r.pick(&[0u64, 1, 7, 8, 9, 63, 64, 254, 255, 256, 257, 65535]),
@@ -379,6 +395,9 @@ impl XBundle {
                         if auth == 4 {
                             ctx.viol("C15/C04 open_bundled_position accepted the token of ANOTHER bundle as this bundle's token".to_string());
                         }
+                        if auth == 6 {
+                            ctx.viol("C04 open_bundled_position accepted a signer whose account of the bundle mint holds NO token".to_string());
+                        }
                         if auth == 5 {
                             ctx.viol("C15/C18 open_bundled_position created the position at the address of another bundle index".to_string());
                         }
@@ -464,6 +483,9 @@ impl XBundle {
                         }
                         if auth == 4 {
                             ctx.viol("C15/C04 close_bundled_position accepted the token of ANOTHER bundle as this bundle's token".to_string());
+                        }
+                        if auth == 6 {
+                            ctx.viol("C04 close_bundled_position accepted a signer whose account of the bundle mint holds NO token".to_string());
                         }
                         if made_dirty {
                             ctx.viol(format!("C18 a bundled position that is not empty (case {}) was closed", dirty));
